@@ -813,9 +813,9 @@ def gen_content(rng, *, rational=False, p_odd=0.25, stiff=False):
                 st.append([c, {"c": str(rng.choice([-2, -1, 1, 2, "1/2", 3]))}])
             elif r < 0.9:
                 ponly = pnames + [d for d, g in derived if all(a in pnames for a in g["args"])]
-                st.append([c, _mk(rng, rng.choice(["twice", "add", "mul", "constant"]), ponly)])
+                st.append([c, _mk(rng, rng.choice(["twice", "add", "mul", "constant", "minus", "moiety_1s", "minus"]), ponly)])
             else:
-                st.append([c, _mk(rng, rng.choice(["twice", "add", "mul", "constant"]), pool)])
+                st.append([c, _mk(rng, rng.choice(["twice", "add", "mul", "constant", "minus", "moiety_1s", "minus"]), pool)])
         f["st"] = st
         rxns.append([f"r{i}", f])
     # every variable gets an equation (unless this is an odd model, sometimes)
@@ -944,6 +944,10 @@ def corpus():
         # state-dependent coefficient, ordinary rate
         ("dyn-coef", lambda: base(
             rxns=[["r0", rxn("mass_action_1s", ["v0", "c1"], [["v0", fn_ref("mul", ["v1", "c0"])], ["v1", {"c": "1"}]])]])),
+        # state-dependent and parameter-computed coefficients whose functions are NOT symmetric in their arguments
+        ("dyn-coef-asym", lambda: base(
+            rxns=[["r0", rxn("mass_action_1s", ["v0", "c1"], [["v0", fn_ref("minus", ["v1", "c0"])],
+                                                                ["v1", fn_ref("moiety_1s", ["c0", "c1"])]])]])),
         # parameter defined by an initial assignment, declared first, not used by any equation
         ("ia-par-unused", lambda: base(
             pars=[["q0", {"ia": fn_ref("twice", ["c0"])}], ["c0", {"v": "2"}], ["c1", {"v": "3"}]],
